@@ -4,6 +4,8 @@ import Driver.C03
 import Driver.C14
 import RelicVerif.Spec.HashToCurve
 import RelicVerif.Model.EpMap
+import RelicVerif.Spec.HashToCurveBin
+import RelicVerif.Spec.HashToCurveEd
 
 namespace Driver.C13
 open Driver Driver.C15 Relic.Spec Relic.Spec.Curve Relic.Spec.H2C Relic.Model.EpMap
@@ -225,5 +227,157 @@ def handle (e : Env) (cfgSize w : Nat) (op : String) (args : List String) (_got 
       else some (swiftB ub (ub.length / 2))
     else none
   | _, _ => none
+
+
+/-! ### binary curves: eb_map -/
+
+namespace Eb
+open Relic.Spec.H2CBin
+
+structure Env where
+  E : BCurve
+  g : BPoint
+  n : Nat
+  h : Nat
+  mdlen : Nat
+  fbbytes : Nat
+
+def parseEnv (got : String) : Option Env := do
+  let kv := (got.splitOn " ").filterMap fun t => match t.splitOn "=" with
+    | [k, v] => some (k, v)
+    | _ => none
+  let hx := fun (k : String) => (kv.lookup k).bind parseHexNat
+  let dc := fun (k : String) => (kv.lookup k).bind String.toNat?
+  some { E := { m := ← dc "m", f := ← hx "f", a := ← hx "a", b := ← hx "b" }, g := some (← hx "gx", ← hx "gy"),
+         n := ← hx "n", h := ← hx "h", mdlen := ← dc "mdlen", fbbytes := ← dc "fbbytes" }
+
+def checkParam (e : Env) : List String :=
+  let chk := fun (b : Bool) (s : String) => if b then [] else [s]
+  chk (e.E.f != 0 && deg e.E.f == e.E.m) "the reduction polynomial does not have degree m" ++
+  chk (e.E.m % 2 == 1) "m is even (the half-trace does not solve the quadratic)" ++
+  chk (e.E.b != 0) "b = 0 (singular curve)" ++
+  chk (onCurve e.E e.g && e.g != none) "generator not on the curve" ++
+  chk (mulNat e.E e.g e.n == none) "n*G != O" ++
+  chk (e.fbbytes == (e.E.m + 7) / 8) "field byte length differs from ceil(m/8)"
+
+def fmtPoint : BPoint → String
+  | none => "inf"
+  | some (x, y) => natToHex x ++ "," ++ natToHex y
+
+def vet (e : Env) (P : BPoint) : String :=
+  if !onCurve e.E P then "<the construction does not yield a curve point>"
+  else if mulNat e.E P e.n != none then "<the construction does not yield a point of the prime-order group>"
+  else fmtPoint P
+
+def handle (e : Env) (op : String) (args : List String) : Option Verdict :=
+  match op, args with
+  | "eb_map", [m] => do
+    let msg ← parseBytes m
+    let digest := Sha256.sha256 msg
+    let x0 := H2CBin.os2ip (digest.take (min e.fbbytes e.mdlen)) % 2 ^ e.E.m
+    match tryIncrement e.E 4096 x0 with
+    | none => some { model := "hang", spec := ["<no abscissa found within 4096 increments>"] }
+    | some x =>
+      let f := e.E.f
+      let c := quot e.E x
+      let z := halfTrace f e.E.m c
+      let ok := (fsqr f z ^^^ z) == c
+      let P : BPoint := some (x, fmul f z x)
+      let Q := mulNat e.E P e.h
+      -- the other root gives the opposite point: h·(−P) = −(h·P), and n·(−Q) = −(n·Q)
+      let v := vet e Q
+      some { model := if ok then fmtPoint Q else "<half-trace is not a solution>",
+             spec := [v, if v == fmtPoint Q then fmtPoint (neg e.E Q) else v],
+             tags := ["eb_map", "inc=" ++ toString ((x + 2 ^ e.E.m - x0) % 2 ^ e.E.m)] }
+  | _, _ => none
+
+end Eb
+
+
+/-! ### Edwards curves: ed_map, ed_map_dst -/
+
+namespace Ed
+open Relic.Spec.H2CEd
+
+structure Env where
+  E : EdCurve
+  g : Nat × Nat
+  n : Nat
+  h : Nat
+  level : Nat
+  fpbits : Nat
+  c : List Nat      -- ctx->ed_map_c[0..3]: 2^((p+3)/8), sqrt(-1), sqrt(-(J+2)), J
+
+def parseEnv (got : String) : Option Env := do
+  let kv := (got.splitOn " ").filterMap fun t => match t.splitOn "=" with
+    | [k, v] => some (k, v)
+    | _ => none
+  let hx := fun (k : String) => (kv.lookup k).bind parseHexNat
+  let dc := fun (k : String) => (kv.lookup k).bind String.toNat?
+  some { E := { p := ← hx "p", a := ← hx "a", d := ← hx "d" }, g := (← hx "gx", ← hx "gy"), n := ← hx "n", h := ← hx "h",
+         level := ← dc "level", fpbits := ← dc "fpbits", c := [← hx "c0", ← hx "c1", ← hx "c2", ← hx "c3"] }
+
+def Env.J (e : Env) : Nat := e.c.getD 3 0
+def Env.cM (e : Env) : Nat := e.c.getD 2 0
+/-- Z = 2: the non-square RFC 9380 prescribes for p ≡ 5 (mod 8) -/
+def Z : Nat := 2
+
+def checkParam (e : Env) : List String :=
+  let p := e.E.p
+  let O := natMapOps p
+  let chk := fun (b : Bool) (s : String) => if b then [] else [s]
+  chk (p % 8 == 5) "p is not 5 mod 8" ++
+  chk (e.fpbits == Nat.log2 p + 1) "the configured field size differs from the bit length of p" ++
+  chk (!isSqMod p Z) "Z = 2 is a square" ++
+  chk (isSqMod p e.E.a && !isSqMod p e.E.d) "a is not a square or d is a square (the addition law is not complete)" ++
+  chk (O.add (O.mul e.E.d (O.add e.J 2)) (O.mul (O.neg e.E.a) (O.sub e.J 2)) == 0 && O.add e.E.a 1 == 0)
+    "the Edwards coefficients are not a = -1, d = -(J-2)/(J+2) of the Montgomery coefficient J" ++
+  chk (O.add (O.mul e.cM e.cM) (O.add e.J 2) == 0 && e.cM % 2 == 0) "c2 is not the even square root of -(J+2)" ++
+  chk (O.add (O.mul (e.c.getD 1 0) (e.c.getD 1 0)) 1 == 0) "c1 is not a square root of -1" ++
+  chk (e.c.getD 0 0 == powMod 2 ((p + 3) / 8) p) "c0 is not 2^((p+3)/8)" ++
+  chk (edOn e.E e.g) "generator not on the curve" ++
+  chk (edMul e.E e.g e.n == (0, 1) && e.g != (0, 1)) "n*G != O"
+
+def fmtPt (P : Nat × Nat) : String := natToHex P.1 ++ "," ++ natToHex P.2
+
+def specPoint (e : Env) (u0 u1 : Nat) : String :=
+  let O := natMapOps e.E.p
+  let m := fun (u : Nat) => montToEd O e.cM (elligator2 O e.J Z u)
+  let q0 := m u0
+  let q1 := m u1
+  if !(edOn e.E q0 && edOn e.E q1) then "<map_to_curve does not yield a curve point>" else
+  let P := edMul e.E (edAdd e.E q0 q1) e.h
+  if !edOn e.E P then "<the construction does not yield a curve point>"
+  else if edMul e.E P e.n != (0, 1) then "<the construction does not yield a point of the prime-order group>"
+  else fmtPt P
+
+def handle (e : Env) (op : String) (args : List String) (got : String) : Option Verdict :=
+  let run := fun (msg dst : Bytes) =>
+    let L := fieldLen e.E.p e.level
+    match xmd msg dst (2 * L) with
+    | none => ({ model := got, spec := ["err"], tags := ["xmd-abort"] } : Verdict)
+    | some ub =>
+      let u0 := fieldElem e.E.p L ub 0
+      let u1 := fieldElem e.E.p L ub 1
+      { model := got, spec := [specPoint e u0 u1], tags := ["ell2", "dst" ++ toString dst.length] }
+  match op, args with
+  | "ed_map", [m] => do
+    let msg ← parseBytes m
+    some (run msg "RELIC".toUTF8.toList)
+  | "ed_ell2", [u] => do
+    let u ← parseHexNat u
+    let O := natMapOps e.E.p
+    let st := elligator2 O e.J Z (u % e.E.p)
+    let q := montToEd O e.cM st
+    let exc := st.2 == 0 || O.add st.1 1 == 0
+    some { model := got, spec := [if edOn e.E q then fmtPt q else "<map_to_curve does not yield a curve point>"],
+           tags := ["ed_ell2"] ++ (if exc then ["ell2-exceptional"] else []) ++ (if u % e.E.p == 0 then ["u=0"] else []) }
+  | "ed_map_dst", [m, d] => do
+    let msg ← parseBytes m
+    let dst ← parseBytes d
+    some (run msg dst)
+  | _, _ => none
+
+end Ed
 
 end Driver.C13
